@@ -14,9 +14,26 @@ pub fn main(args: &[String]) {
                 cfg.set_layers(if job["layers"] == "compress" { Layers::COMPRESS } else { Layers::EMPTY });
                 let f = std::fs::File::create(job["path"].as_str().unwrap()).expect("create archive");
                 let mut w = ArchiveWriter::from_config(f, cfg).expect("writer");
+                if job.get("interleave").and_then(Value::as_bool).unwrap_or(false) {
+                    // every file opened, first halves in turn, second halves in turn, every file closed:
+                    // each file has two runs separated by all the others
+                    let ms = job["members"].as_array().unwrap();
+                    let ids: Vec<u64> = ms.iter().map(|m| w.start_file(m["name"].as_str().unwrap()).expect("start_file")).collect();
+                    for half in 0..2 {
+                        for (m, id) in ms.iter().zip(&ids) {
+                            let c = m["content"].as_str().unwrap().as_bytes();
+                            let piece = if half == 0 { &c[..c.len() / 2] } else { &c[c.len() / 2..] };
+                            w.append_file_content(*id, piece.len() as u64, piece).expect("append");
+                        }
+                    }
+                    for id in ids {
+                        w.end_file(id).expect("end_file");
+                    }
+                } else {
                 for m in job["members"].as_array().unwrap() {
                     let c = m["content"].as_str().unwrap().as_bytes();
                     w.add_file(m["name"].as_str().unwrap(), c.len() as u64, c).expect("add_file");
+                }
                 }
                 w.finalize().expect("finalize");
             }
